@@ -175,7 +175,11 @@ def read_data(fh, mcnp_version, block_type=None, recursion=False):
         ):
             yield from flush_input()
         # die if it is a vertical syntax format
-        if "#" in line[0:BLANK_SPACE_CONTINUE] and not line_is_comment:
+        # (the "#" has to be the first thing on the line: "2 0 #1" is a plain cell with a complement)
+        if (
+            line[0:BLANK_SPACE_CONTINUE].lstrip().startswith("#")
+            and not line_is_comment
+        ):
             raise errors.UnsupportedFeature("Vertical Input format is not allowed")
         # cut line down to allowed length
         old_line = line
